@@ -235,11 +235,11 @@ int parity_create(struct snapraid_parity_handle* handle, const struct snapraid_p
 			split->size = split->st.st_size;
 
 			/* ensure that the resulting size if block aligned */
+			/* a file cut in the middle of a block is not a reason to refuse to work, */
+			/* the partial block is just ignored, and handled like any other missing parity */
 			if ((split->size & block_mask) != 0) {
-				/* LCOV_EXCL_START */
-				log_fatal("Error in preallocated size of parity file '%s' with size %" PRIu64 " and block %u .\n", split->path, split->size, block_size);
-				goto bail;
-				/* LCOV_EXCL_STOP */
+				log_fatal("WARNING! Ignoring the trailing partial block of parity file '%s' with size %" PRIu64 " and block %u.\n", split->path, split->size, block_size);
+				split->size &= ~block_mask;
 			}
 		}
 
@@ -722,11 +722,11 @@ int parity_open(struct snapraid_parity_handle* handle, const struct snapraid_par
 			split->size = split->st.st_size;
 
 			/* ensure that the resulting size if block aligned */
+			/* a file cut in the middle of a block is not a reason to refuse to work, */
+			/* the partial block is just ignored, and handled like any other missing parity */
 			if ((split->size & block_mask) != 0) {
-				/* LCOV_EXCL_START */
-				log_fatal("Error in preallocated size of parity file '%s' with size %" PRIu64 " and block %u .\n", split->path, split->size, block_size);
-				goto bail;
-				/* LCOV_EXCL_STOP */
+				log_fatal("WARNING! Ignoring the trailing partial block of parity file '%s' with size %" PRIu64 " and block %u.\n", split->path, split->size, block_size);
+				split->size &= ~block_mask;
 			}
 		}
 
